@@ -14,7 +14,7 @@
 (* Named deviations (genuine defects that are recorded, not repaired) are  *)
 (* extra branches enabled only when their name is in Deviations.           *)
 (***************************************************************************)
-EXTENDS Integers, Sequences, FiniteSets, TLC
+EXTENDS Integers, Sequences, FiniteSets, TLC, Locator
 
 CONSTANTS
   MaxN,        \* non-genesis headers have ids 1..MaxN
@@ -299,13 +299,6 @@ WalkSurvivesTipGrowth ==
               /\ \A j \in 1 .. Len(a.content) : a.content[j] = b.content[j]]_cvars
 
 \* C13
-RECURSIVE LocH(_, _, _)
-LocH(h, step, len) ==    \* heights after an entry at height h when the locator already has len entries
-  IF h = 0 THEN <<>>
-  ELSE LET nh == IF h - step < 0 THEN 0 ELSE h - step
-           ns == IF len + 1 > 10 THEN step * 2 ELSE step
-       IN <<nh>> \o LocH(nh, ns, len + 1)
-LocatorHeights(t) == <<t>> \o LocH(t, 1, 1)
 IdAt(h)  == CHOOSE i \in AtHeight(h) : TRUE
 Locator  == LET hs == LocatorHeights(TipH) IN [k \in 1 .. Len(hs) |-> IdAt(hs[k])]
 
@@ -317,12 +310,10 @@ LocatorShape ==
 
 \* loc: set of ids (stored or not); stop: an id, or -1 for the zero hash
 GetHeaders(loc, stop, cap) ==
-  LET s     == Max({0} \cup {rows[i].height : i \in Longest \cap loc})
-      known == stop \in Longest
+  LET known == stop \in Longest
                  /\ (rows[stop].height > 0 \/ "StopAtGenesis" \notin Deviations)
-      e0    == IF known THEN rows[stop].height ELSE s + cap
-      e     == Min({e0, s + cap, TipH})
-  IN IF e0 <= s THEN <<>> ELSE [j \in 1 .. (e - s) |-> IdAt(s + j)]
+      hs    == GetHeadersH(TipH, {rows[i].height : i \in Longest \cap loc}, IF known THEN rows[stop].height ELSE -1, cap)
+  IN [j \in 1 .. Len(hs) |-> IdAt(hs[j])]
 
 GetHeadersIsNextSegment ==   \* sanity of the operator itself on every reachable store
   \A stop \in Stored \cup {-1} : \A l \in Stored \cup {Never} :
